@@ -27,3 +27,8 @@ CHECKS["C09"] = ("exploration",
   "All triples over a 26-value grid of special floats (zeros, subnormals, extremes, infinities, four NaN payloads) and random bit patterns are pushed through construction, every comparison operator, sort/min/max and every arithmetic operator; vectors up to length 2 (3 thorough) over a 9-value grid through both multi-objective constructors and the partial order, compared with an independent Pareto reference. The operator non-closure is a listed known finding (8 signatures, each only for the raw IEEE result).",
   "Scalars for * and / are finite. Known findings C09 <Op> yields NaN/-inf are suppressed only when the result equals the plain f64 arithmetic result.",
   "DESIGN.md §6 C09")
+CHECKS["C10"] = ("exploration",
+  "exhaustive grids + proptest over condition inputs, value histories against a last-reported-value model, seeded frequency test (6 sigma), Boolean formulas over tracing operands with injected operand errors",
+  "Each condition is evaluated on exhaustive grids around its decision boundary (value vs n, multiples, best vs optimum+epsilon with float neighbours) and on random inputs, with the progress value compared bit-exactly; iteration-bounded loops are run for n in 0..40 (and random n) counting body runs, condition evaluations and the progress sequence; ChangeOf is driven through all short value histories and long random ones with both checkers over i64 and objective values; RandomChance by frequency over fixed samples; And/Or/Not through constructors, operators and clones with every operand's lifecycle traced.",
+  "EveryN(0) excluded. RandomChance: deviations inside the 6-sigma band are invisible. Two sequential loops over one shared counter are not asserted either way.",
+  "DESIGN.md §6 C10")
